@@ -291,7 +291,16 @@ func SignalIgnored(s os.Signal) bool {
 	}
 	return false
 }
-func SignalStop(chan<- os.Signal)  {}
+// SignalStop undoes SignalNotify: the default disposition (termination) is back.
+func SignalStop(c chan<- os.Signal) {
+	if !simulated() {
+		signal.Stop(c)
+		return
+	}
+	if pi := Info(vrt.CurProc()); pi != nil && pi.SigChan == c {
+		pi.SigChan = nil
+	}
+}
 
 // ---- exec replacements ----
 
